@@ -123,12 +123,11 @@ def compile_and_instrument(u, registry, tu_path, outdir, tag, defs, r=None):
     cmd = ['goto-instrument', '--dfcc', 'gv_h']
     if u.kind in ('contract',) or (u.kind == 'bounded' and u.contract and u.src):
         cmd += ['--enforce-contract', u.fn]
-    with open(tu_path) as tf:
-        tu_text = tf.read()
+    rc, symtab, _ = sh(['goto-instrument', '--show-symbol-table', a], 120)
     for nm in u.uses:
         fn = registry[nm].fn
         # a callee that is declared but never called is not in the goto model
-        if len(re.findall(r'(?<![\w])%s\s*\(' % re.escape(fn), tu_text)) >= 2:
+        if re.search(r'^Symbol\.+: %s$' % re.escape(fn), symtab, re.M):
             cmd += ['--replace-call-with-contract', fn]
     if u.kind != 'bounded':
         cmd += ['--apply-loop-contracts']
